@@ -144,6 +144,8 @@ type Worker struct {
 	hasRng bool
 	reader *VReader // the reader of its current deployment
 	killed bool
+	exited chan struct{} // closed when both processes of the worker have returned
+	ExitErr error
 }
 
 type Cluster struct {
@@ -266,7 +268,7 @@ func (c *Cluster) AddWorker() *Worker {
 	name := fmt.Sprintf("w%d", c.nextW)
 	c.nextW++
 	c.mu.Unlock()
-	w := &Worker{Name: name, clock: clocks.NewFrozenClock(), opClk: clocks.NewFrozenClock(), done: make(chan error, 1), OpID: "op-" + name}
+	w := &Worker{Name: name, clock: clocks.NewFrozenClock(), opClk: clocks.NewFrozenClock(), done: make(chan error, 1), exited: make(chan struct{}), OpID: "op-" + name}
 	w.H = ophar.NewHandlerSharing(w.OpID, c.Store)
 	w.H.TimerProg = c.TimerFn
 	w.H.Check = c.checks
@@ -304,7 +306,9 @@ func (c *Cluster) AddWorker() *Worker {
 			cancel()
 		}
 		e2 := <-errs
-		w.done <- errors.Join(e1, e2)
+		w.ExitErr = errors.Join(e1, e2)
+		close(w.exited)
+		w.done <- w.ExitErr
 	}()
 	return w
 }
@@ -333,6 +337,16 @@ func (c *Cluster) Kill(w *Worker) {
 		case <-d:
 		case <-time.After(Watchdog):
 		}
+	}
+}
+
+// Exited reports whether the worker's processes have returned by themselves (and with which error).
+func (w *Worker) Exited() (bool, error) {
+	select {
+	case <-w.exited:
+		return true, w.ExitErr
+	default:
+		return false, nil
 	}
 }
 
